@@ -38,7 +38,7 @@ Print Assumptions direct_copy_exact.
 (* the planner emits exactly these blocks *)
 Theorem copyfile_staged_shape : forall um s x d hl cp n,
   e_kind x = KFile d hl -> canon s (e_loc x) = WOk cp -> node_at s cp = Some n ->
-  is_dir_node n = false -> lookup s (sibling_new cp) = None ->
+  is_dir_node n = false -> lookup s (sibling_new cp) = None -> name_too_long (sibling_new cp) = false ->
   copyfile um s x =
     (replace_ops (sibling_new cp) cp (file_create_mode um) (chunks1 d) (perms_new x (sibling_new cp)), None).
 Proof. exact copyfile_staged_shape_proof. Qed.
